@@ -97,7 +97,11 @@ func newWorld(c *mon.Case, sp spec) *world {
 	// timers that are not the subject of C18 are pushed out of the way (set on
 	// the socket first so that contexts inherit them where the pattern does that)
 	w.sock.SetOption(mangos.OptionRetryTime, time.Hour)
-	w.sock.SetOption(mangos.OptionSurveyTime, time.Hour)
+	surveyTime := time.Hour
+	if sp.SurvZero {
+		surveyTime = 0
+	}
+	w.sock.SetOption(mangos.OptionSurveyTime, surveyTime)
 	if sp.Obj == "ctx" {
 		cx, err := w.sock.OpenContext()
 		if err != nil {
@@ -105,7 +109,7 @@ func newWorld(c *mon.Case, sp spec) *world {
 			return nil
 		}
 		cx.SetOption(mangos.OptionRetryTime, time.Hour)
-		cx.SetOption(mangos.OptionSurveyTime, time.Hour)
+		cx.SetOption(mangos.OptionSurveyTime, surveyTime)
 		w.obj = cx
 	}
 	if sp.Proto == "sub" {
@@ -119,7 +123,7 @@ func newWorld(c *mon.Case, sp spec) *world {
 		if w.outcome != "" {
 			c.Count("outcome_"+sp.Kind+"_"+w.outcome, 1)
 		}
-		c.Sig("%s|%s|%s|%s|%s|n%d|q%d|%s|k%d|d%d|%v|%v|%v|%s", sp.Kind, sp.Proto, sp.Obj, sp.Op, sp.Peer, sp.NPipes, sp.Q, sp.State, sp.K, sp.DUs, sp.FNP, sp.WithDL, sp.Left, w.outcome)
+		c.Sig("%s|%s|%s|%s|%s|n%d|q%d|%s|k%d|d%d|%v|%v|%v|%s", sp.Kind, sp.Proto, sp.Obj, sp.Op, sp.Peer, sp.NPipes, sp.Q, sp.State, sp.K, sp.DUs, sp.FNP, sp.WithDL, sp.Left || sp.SurvZero, w.outcome)
 	})
 	return w
 }
